@@ -81,6 +81,13 @@ func FormField(body string, name string) (string, bool) { stub(); return "", fal
 // string, array of such values, empty object); json.Unmarshal of it into `any` yields that value.
 func JSONDoc(tag string) []byte { stub(); return nil }
 
+// WithCookie returns r carrying one more cookie; CookieSet reads the last cookie of that name set on w.
+func WithCookie(r *http.Request, name, value string) *http.Request { stub(); return r }
+func CookieSet(w http.ResponseWriter, name string) (value string, maxAge int, ok bool) {
+	stub()
+	return "", 0, false
+}
+
 // Debugf records a diagnostic line in native runs; ignored symbolically.
 func Debugf(format string, args ...any) { stub() }
 
